@@ -19,20 +19,29 @@ from symv.symarray import SymArray, cells
 from . import dailyframe as F
 from . import dailyref as R
 
-EXPLANATION = "C05: self-composition of DailyModel._predict with/without an arbitrary observed column; BillingModel monthly aggregation for two observed columns sharing a NaN mask."
-BOUNDS = {"quick": dict(rows="2 (sloped layouts) / 3 (flat layout)", layouts=["single-v", "wdwe", "season", "single"]),
-          "thorough": dict(rows="3 (sloped layouts) / 4 (flat layout), 5 for the flat billing aggregate", layouts=["single-v", "wdwe", "season", "single"])}
-STUBS = ["numba kernels de-jitted", "model from a concrete stored document"]
+EXPLANATION = ("C05: self-composition of DailyModel._predict with/without an arbitrary observed column; BillingModel monthly aggregation for two observed columns sharing a NaN mask; "
+               "4-call histories on one model object; DailyReportingData built from an hourly electricity feed for two usage columns.")
+BOUNDS = {"quick": dict(rows="2 (sloped layouts) / 3 (flat layout)", layouts=["single-v", "wdwe", "season", "single"],
+                        histories="4 predict calls on one object, 5 days, usage gaps on the 3 interior days, one shared symbolic temperature",
+                        dataclass="48 hourly rows, 3 designated readings may be exactly 0"),
+          "thorough": dict(rows="3 (sloped layouts) / 4 (flat layout), 5 for the flat billing aggregate", layouts=["single-v", "wdwe", "season", "single"],
+                           histories="4 predict calls on one object, 5 days, usage gaps on any day, one shared symbolic temperature",
+                           dataclass="48 hourly rows, 3 designated readings may be exactly 0")}
+STUBS = ["numba kernels de-jitted", "model from a concrete stored document", "SufficiencyCriteria._check_extreme_values -> no-op (dataclass case)"]
 MODELS_USED = ["symreal ExtensionArray", "symnp.isfinite"]
 ASSUMPTIONS = ["hourly (ElasticNet/scalers) and CalTRACK hourly (patsy) are outside the claim",
+               "dataclass case: all readings except three designated ones are assumed non-zero (each possible zero doubles the paths)",
+               "history cases: the days of the period share one symbolic temperature",
                "billing aggregation compared for equal NaN masks only: blanking a day legitimately removes that day's prediction from a monthly sum"]
-EXPECTED_REGIMES = ["observed NaN on a predicted-able row", "observed present", "heating regime", "flat regime"]
+EXPECTED_REGIMES = ["observed NaN on a predicted-able row", "observed present", "heating regime", "flat regime",
+                    "same number of usage gaps at different days in consecutive calls", "zero electricity reading"]
 COLS = ["predicted", "predicted_unc", "heating_load", "cooling_load"]
 
 
 def ENCODED():
+    import opendsm.eemeter.models.daily.data as dd
     return [dm.DailyModel._predict, dm.DailyModel._initialize_data, dm.DailyModel._meter_segment, dm.DailyModel._predict_submodel,
-            BillingModel.predict]
+            BillingModel.predict, dd._DailyData.__init__, dd._DailyData._set_data, dd._DailyData._compute_temperature_features]
 
 
 def cases(tier, seed):
@@ -45,6 +54,7 @@ def cases(tier, seed):
         out = [f"{lay}/{ik}/2" for lay in ("single-v", "wdwe", "season") for ik in ("pacific-dst", "gap")]
         out += ["single/pacific-dst/3", "single/unsorted/3"]
         out += ["billing-agg/flat/3", "billing-agg/v/2"]
+    out += ["history/wdwe-flat/5", "history/season/5", "dataclass/daily/elec"]
     return out
 
 
@@ -110,6 +120,10 @@ def _billing_data(df):
 
 def run_case(case: Case, name: str):
     lay, ik, n = name.split("/")
+    if lay == "history":
+        return run_history(case, ik, int(n))
+    if lay == "dataclass":
+        return run_dataclass(case)
     n = int(n)
     if lay == "billing-agg":
         return run_agg(case, ik, n)
@@ -204,3 +218,163 @@ def run_agg(case, ik, n):
                         eqs.append(to_real(lift(x)) == to_real(lift(y)))
         case.prove(p, z3.And(*eqs), "monthly aggregates of the counterfactual do not depend on observed values", replay=rp)
         case.regime("observed present", "val" in os_)
+
+
+# ------------------------------------------------------------------ call histories on one model object
+
+HIST_IDX = {"wdwe-flat": "2021-03-12", "season": "2021-05-29"}  # Fri..Tue across the DST change / May->June (shoulder->summer)
+
+
+def _history_real(lay, n, env, os_, ps_):
+    idx = pd.date_range(HIST_IDX[lay], periods=n, freq="D", tz="US/Pacific")
+    m = F.model(lay, tz="US/Pacific")
+    ts = ["val"] * n
+    env = dict(env)
+    env.update({f"T{i}": env.get("T0", 0.0) for i in range(n)})
+    fa = F.float_frame(idx, env, ts, None)
+    fb = F.float_frame(idx, env, ts, os_, oname="o")
+    fc = F.float_frame(idx, env, ts, ps_, oname="p")
+    return idx, (fa, fb, fc), [m._predict(f.copy()) for f in (fa, fb, fc, fa)]
+
+
+def replay_history(inp):
+    idx, frames, outs = _history_real(inp["layout"], inp["n"], inp["env"], inp["os"], inp["ps"])
+    a = outs[0]
+    pr = []
+    for who, f, b in (("2nd call", frames[1], outs[1]), ("3rd call", frames[2], outs[2]), ("4th call (temperature only again)", frames[0], outs[3])):
+        for t in idx:
+            if t in b.index and np.isfinite(b.loc[t, "predicted"]):
+                for c in COLS + ["model_split"]:
+                    if not (a.loc[t, c] == b.loc[t, c]):
+                        pr.append(f"{who}, {t.date()}: {c} {b.loc[t, c]} but {a.loc[t, c]} when predicted first and without usage")
+    return bool(pr), "; ".join(pr[:4])
+
+
+def run_history(case, lay, n):
+    """one model object predicts the same period four times: without usage, with usage column o, with usage column p
+    (independent NaN masks), without usage again.  Every prediction produced must equal the first call's."""
+    idx = pd.date_range(HIST_IDX[lay], periods=n, freq="D", tz="US/Pacific")
+    case.inputs = [z3.Real("T0")] + [z3.Real(f"o{i}") for i in range(n)] + [z3.Real(f"p{i}") for i in range(n)]
+    free = range(n) if case.tier == "thorough" else range(1, n - 1)  # rows whose usage may be missing
+
+    def col(prefix):
+        out, st = [], []
+        for i in range(n):
+            s = F.choose(f"{prefix}_state{i}", ["val", "nan"]) if i in free else "val"
+            st.append(s)
+            out.append(SReal(z3.Real(f"{prefix}{i}")) if s == "val" else NAN)
+        return out, st
+
+    def run():
+        m = F.model(lay, tz="US/Pacific")
+        T = SymArray([SReal(z3.Real("T0")) for i in range(n)])  # one symbolic temperature for the whole period (each own symbol forks 3 ways per row)
+        O, os_ = col("o")
+        Pp, ps_ = col("p")
+        fa = pd.DataFrame({"temperature": T}, index=idx)
+        fb = pd.DataFrame({"temperature": T, "observed": SymArray(O)}, index=idx)
+        fc = pd.DataFrame({"temperature": T, "observed": SymArray(Pp)}, index=idx)
+        return os_, ps_, [m._predict(f.copy()) for f in (fa, fb, fc, fa)]
+
+    with R.symbolic_daily():
+        paths = case.explore(run)
+    for p in paths:
+        if p.outcome != "ret":
+            case.rep["harness_errors"].append(f"unexpected exception in _predict: {p.value!r}")
+            continue
+        os_, ps_, outs = p.value
+        rp = ("history", (lambda st: lambda mdl: dict(layout=lay, n=n, env=model_env(mdl, case.inputs), os=st[0], ps=st[1]))((os_, ps_)))
+        case.twin(p)
+        a = outs[0]
+        A = {c: dict(zip(a.index, cells(a[c]))) for c in COLS + ["model_split"]}
+        for k, b in enumerate(outs[1:], start=2):
+            B = {c: dict(zip(b.index, cells(b[c]))) for c in COLS + ["model_split"]}
+            eqs = [z3.BoolVal(list(b.index) == list(idx))]
+            for t in idx:
+                if t in B["predicted"] and F.finite(B["predicted"][t]):
+                    for c in COLS:
+                        x, y = A[c].get(t), B[c][t]
+                        eqs.append(to_real(lift(x)) == to_real(lift(y)) if F.finite(x) and F.finite(y) else z3.BoolVal(False))
+                    eqs.append(z3.BoolVal(A["model_split"].get(t) == B["model_split"][t]))
+            case.prove(p, z3.And(*eqs), f"call {k} on the same model object: every prediction equals the first (usage-free) call's", replay=rp)
+        case.regime("same number of usage gaps at different days in consecutive calls", os_.count("nan") == ps_.count("nan") > 0 and os_ != ps_)
+    case.sample(dict(layout=lay, rows=n, calls=4, paths=len(paths)))
+
+
+# ------------------------------------------------------------------ through the reporting data class
+
+def _dc_frames(n, sym, env=None):
+    from . import dataclass as D
+    idx = pd.date_range("2021-03-13", periods=n, freq="h", tz="US/Pacific")
+    T = D.col("T", n, {5}, sym, env)
+    return idx, T
+
+
+def _dc_frame(idx, T, obs):
+    from opendsm.eemeter.models.daily.data import DailyReportingData
+    d = DailyReportingData(pd.DataFrame({"observed": obs, "temperature": T}, index=idx), is_electricity_data=True)
+    return d.df
+
+
+def replay_dataclass(inp):
+    import logging
+    logging.disable(logging.CRITICAL)
+    n, env = inp["n"], inp["env"]
+    idx, T = _dc_frames(n, False, env)
+    o = np.array([float(env.get(f"o{i}", 1.0)) for i in range(n)])
+    q = np.array([float(env.get(f"q{i}", 1.0)) for i in range(n)])
+    d1, d2 = _dc_frame(idx, T, o), _dc_frame(idx, T.copy(), q)
+    m = F.model("single-v", tz="US/Pacific")
+    r1, r2 = m._predict(d1[["temperature"]].copy()), m._predict(d2[["temperature"]].copy())
+    pr = []
+    if list(d1.index) != list(d2.index):
+        pr.append(f"days differ: {[str(t.date()) for t in d1.index]} vs {[str(t.date()) for t in d2.index]}")
+    for t in d1.index.intersection(d2.index):
+        x, y = d1.loc[t, "temperature"], d2.loc[t, "temperature"]
+        if not ((x != x and y != y) or x == y):
+            pr.append(f"{t.date()}: temperature {x} with usage o vs {y} with usage q, prediction {r1.loc[t, 'predicted']} vs {r2.loc[t, 'predicted']} "
+                      f"(zero readings in o at hours {[i for i in range(n) if o[i] == 0]})")
+    return bool(pr), "; ".join(pr[:4])
+
+
+def run_dataclass(case):
+    """hourly electricity feed -> DailyReportingData, for two usage columns over the same temperatures; a zero reading
+    (turned into a missing reading by the data class) must not move the day's temperature - the only thing the
+    prediction is computed from (pair cases)"""
+    from . import dataclass as D
+    n = 48
+    case.inputs = [z3.Real(f"T{i}") for i in range(n)] + [z3.Real(f"o{i}") for i in range(n)] + [z3.Real(f"q{i}") for i in range(n)]
+    zero_rows = (3, 4, 30)
+
+    def run():
+        eng = E.cur()
+        for i in range(n):
+            if i not in zero_rows:
+                eng.assume(z3.Real(f"o{i}") != 0)
+            eng.assume(z3.Real(f"q{i}") != 0)
+        idx, T = _dc_frames(n, True)
+        o = SymArray([SReal(z3.Real(f"o{i}")) for i in range(n)])
+        q = SymArray([SReal(z3.Real(f"q{i}")) for i in range(n)])
+        return _dc_frame(idx, T, o), _dc_frame(idx, T.copy(), q)
+
+    with D.symbolic_dataclasses():
+        paths = case.explore(run)
+    for p in paths:
+        if p.outcome != "ret":
+            case.rep["harness_errors"].append(f"data class raised {p.value!r}")
+            continue
+        d1, d2 = p.value
+        rp = ("dataclass", lambda mdl: dict(n=n, env=model_env(mdl, case.inputs)))
+        case.twin(p)
+        eqs = [z3.BoolVal(list(d1.index) == list(d2.index))]
+        X, Y = dict(zip(d1.index, cells(d1["temperature"]))), dict(zip(d2.index, cells(d2["temperature"])))
+        for t in d1.index:
+            if t in Y:
+                eqs.append(to_real(lift(X[t])) == to_real(lift(Y[t])) if F.finite(X[t]) and F.finite(Y[t]) else z3.BoolVal(F.finite(X[t]) == F.finite(Y[t])))
+        case.prove(p, z3.And(*eqs), "daily temperature handed to the model does not depend on the usage readings (incl. zero electricity readings)", replay=rp)
+        zero = any(str(c) in ("o%d == 0" % i, "0 == o%d" % i) for c in p.pc for i in zero_rows)
+        case.regime("zero electricity reading", zero)
+    case.sample(dict(feed="hourly electricity, 48 rows", paths=len(paths)))
+
+
+REPLAY["history"] = replay_history
+REPLAY["dataclass"] = replay_dataclass
